@@ -22,8 +22,14 @@ TypeOK ==
 
 ---------------------------------------------------------------------------
 (* C03: server -> client messages: exactly once, in order, one transport *)
+\* delivered messages carry strictly increasing numbers: order kept, nothing twice
+MsgNum(s, m) == IF \E n \in 1..g.sent[s] : SrvMsg(n) = m
+                THEN CHOOSE n \in 1..g.sent[s] : SrvMsg(n) = m ELSE 0
 C03_InOrderOnce ==
-    \A s \in Sid : \A i \in 1..Len(g.deliv[s]) : g.deliv[s][i][1] = SrvMsg(i)
+    \A s \in Sid :
+        /\ \A i \in 1..Len(g.deliv[s]) : MsgNum(s, g.deliv[s][i][1]) > 0
+        /\ \A i \in 1..(Len(g.deliv[s]) - 1) :
+               MsgNum(s, g.deliv[s][i][1]) < MsgNum(s, g.deliv[s][i + 1][1])
 C03_OnlyAccepted == \A s \in Sid : Len(g.deliv[s]) <= g.sent[s]
 \* nothing accepted disappears while the session is open
 C03_NoLoss ==
